@@ -91,6 +91,11 @@ func (mb *MBucket) AllRows() []ExpRow {
 // order given by names (result column order).
 func ExpectedVal(b *Bucket, id int64, name string) (interface{}, bool) {
 	idc := b.idCol()
+	if o, ok := b.Overrides[id]; ok {
+		if v, ok := o[name]; ok {
+			return v, true
+		}
+	}
 	for j, c := range b.Cols {
 		if c.Name == name {
 			return bucketColVal(b, id, j, idc), true
